@@ -7,7 +7,7 @@ Allowed: the documented lazy views of a Key -- `_dict_value` filled once (assign
 place), its "kid", the cached `public_key` -- and they must be idempotent.  An empty write set implies (a) every sequential
 history leaves shared state as in isolation and (b) no two concurrent calls conflict on a location."""
 from typing import Optional, List
-import sys, types, random
+import sys, types, random, os
 from joserfc import jws, jwe, jwt
 from joserfc.jwk import OctKey, RSAKey, ECKey, OKPKey, KeySet, JWKRegistry
 from joserfc.jws import JWSRegistry
@@ -53,6 +53,16 @@ def freeze(o, depth=0, seen=None):
 
 
 def shared_state(keys=(), keysets=()):
+    # the snapshot itself is plain bookkeeping: run it outside CrossHair's tracing (it walks every joserfc module)
+    try:
+        from crosshair.tracers import NoTracing
+    except ImportError:  # pragma: no cover
+        return _shared_state(keys, keysets)
+    with NoTracing():
+        return _shared_state(keys, keysets)
+
+
+def _shared_state(keys=(), keysets=()):
     st = {}
     for name, mod in list(sys.modules.items()):
         if not name.startswith("joserfc") or mod is None:
@@ -257,9 +267,13 @@ def frame(op: int, a_i: int, lazy: bool, use_i: int, payload: bytes, has_kid: bo
     return True
 
 
+QUICK = os.environ.get("VERIF_TIER") != "thorough"
+
+
 def two_ops(op1: int, op2: int, a1: int, a2: int, lazy: bool, use_i: int, v0: bool, v1: bool) -> bool:
     """
     PRE: 0 <= op1 < 12 and 0 <= op2 < 12 and 0 <= a1 <= 5 and 0 <= a2 <= 5 and 0 <= use_i <= 2
+    PRE: not QUICK or (a1 == a2 and use_i == 0 and v0 == v1 and op2 in (1, 5, 9, 10))
     POST: _
     """
     rt.tick()
@@ -357,6 +371,18 @@ def real_histories():
             want = [b"msg" if k is pubg else "error" for k in order]
             if res != want:
                 out.append("%s: verifying with keys %s gave %r, in isolation %r" % (alg, ["right" if k is pubg else "wrong" for k in order], res, want))
+    # two parsed tokens held at the same time, validated afterwards
+    ka, kb = JWKRegistry.import_key(J["oct32"]), JWKRegistry.import_key(dict(J["oct32"], k=R.b64e(b"y" * 32)))
+    t1 = jws.serialize_compact({"alg": "HS256"}, b"first", ka, algorithms=["HS256"])
+    t2 = jws.serialize_compact({"alg": "HS256"}, b"second", kb, algorithms=["HS256"])
+    o1 = jws.extract_compact(t1.encode())
+    o2 = jws.extract_compact(t2.encode())
+    try:
+        r1, r2 = jws.validate_compact(o1, ka, ["HS256"]), jws.validate_compact(o2, kb, ["HS256"])
+    except Exception as e:  # noqa
+        r1 = r2 = "error %s" % type(e).__name__
+    if r1 is not True or r2 is not True or o1.payload != b"first" or o2.payload != b"second":
+        out.append("extract_compact(t1); extract_compact(t2); validate_compact(obj1) -> %r, validate_compact(obj2) -> %r (both valid in isolation)" % (r1, r2))
     return out
 
 
